@@ -74,8 +74,6 @@ Proof.
   - right. rewrite nth_error_app2 in H; auto.
 Qed.
 
-Definition drefs (ch : list (name * ref)) : list nat :=
-  flat_map (fun e => match snd e with RDir c => [c] | RFile _ => [] end) ch.
 Lemma drefs_app a b : drefs (a ++ b) = drefs a ++ drefs b.
 Proof. unfold drefs. apply flat_map_app. Qed.
 Lemma drefs_In ch c : In c (drefs ch) <-> exists nm, In (nm, RDir c) ch.
@@ -1145,4 +1143,531 @@ Proof.
   destruct (blocked_has_enabled st t l HI El Hd (Hn t)) as (t' & l' & s' & n & El' & Hr & Hs).
   assert (Hni : pc l' <> PIdle) by (intros E; rewrite E in Hr; destruct Hr as [Hr|Hr]; apply Hr; reflexivity).
   destruct (step_Some_intro _ _ _ _ _ _ El' Hni Hs) as [st' Hst]. rewrite Hn in Hst. discriminate.
+Qed.
+
+(** * Part D: every reachable state can be driven to a final state
+    [pcm s p]: an upper bound on the number of steps the thread needs to finish its current
+    operation when it runs without interference, including ONE restart from the root if the
+    directory it stands on has been removed (after the restart it walks from the root, which is
+    never removed, through linked directories, which are never removed). *)
+Definition wkw (w : wk) : nat := match w with WData _ => 0 | WStream c => S (length c) end.
+Definition amk_of_w (nm : name) (w : wk) : amk :=
+  match w with WData d => MWrite nm d | WStream c => MWriter nm c end.
+Definition aft (a : amk) : nat :=
+  match a with MDone => 0 | MWrite _ _ => 2 | MWriter _ c => 3 + length c | MSnap _ _ => 2 | MAdd _ _ => 1 end.
+Definition Wk (full : path) (a : amk) : nat := 2 + 2 * length full + aft a.
+Definition Rs (s : shared) (d : nat) (full : path) (a : amk) : nat := if rm s d then S (Wk full a) else 0.
+Definition ares_cost (a : ares) : nat :=
+  match a with
+  | ARead => 1 | AReader => 2 | AList => 1 | AExist => 0 | ARemove _ _ => 2
+  | ACopy _ dp _ => 4 + 2 * length dp
+  end.
+Definition pcm (s : shared) (p : pcs) : nat :=
+  match p with
+  | PIdle => 0
+  | PPanic => 1
+  | PRes _ rest a => 1 + length rest + ares_cost a
+  | PReadData _ => 1
+  | PListDir _ => 1
+  | PReaderOpen _ => 2
+  | PReaderClose _ => 1
+  | PRemGap _ _ _ => 2
+  | PRemOld _ _ => 1
+  | PMk full cur rest second a => 2 + 2 * length rest - (if second then 1 else 0) + aft a + Rs s cur full a
+  | PLockL full d nm w => 2 + wkw w + Rs s d full (amk_of_w nm w)
+  | PInL full d nm _ w => 1 + wkw w + Rs s d full (amk_of_w nm w)
+  | PWriterAcq _ _ c => 2 + length c
+  | PWriting _ c => 1 + length c
+  | PSnap full d _ nm => 2 + Rs s d full (MAdd (RFile 0) nm)
+  | PAdd full d snap nm => 1 + Rs s d full (MAdd snap nm)
+  end.
+Definition nxm (s : shared) (n : next) (bound : nat) : Prop :=
+  match n with NPc p => p <> PIdle /\ pcm s p <= bound | NRet _ => True end.
+
+Lemma after_mk_m s full d a : nxm s (after_mk full d a) (aft a + Rs s d full a).
+Proof.
+  destruct a; simpl; auto; (split; [discriminate|]); unfold Rs, Wk; simpl; destruct (rm s d); lia.
+Qed.
+Lemma goto_mk_m s full c rest a : nxm s (goto_mk full c rest a) (2 + 2 * length rest + aft a + Rs s c full a).
+Proof.
+  destruct rest as [|x rest]; simpl.
+  - pose proof (after_mk_m s full c a) as H. destruct (after_mk full c a); simpl in *; auto.
+    destruct H; split; auto; try lia.
+  - split; [discriminate|lia].
+Qed.
+Lemma after_res_m s r a : rm s ROOT = false -> nxm s (after_res r a) (ares_cost a).
+Proof.
+  intros H0. destruct a, r; simpl; auto; try (split; [discriminate|lia]).
+  all: destruct k; simpl; auto.
+  all: pose proof (goto_mk_m s dp ROOT dp (MSnap (RDir d) nm)) as H + pose proof (goto_mk_m s dp ROOT dp (MSnap (RFile f) nm)) as H.
+  all: unfold Rs in H; rewrite H0 in H; simpl in H.
+  all: match goal with |- nxm _ ?x _ => destruct x; simpl in *; auto end.
+  all: destruct H; split; auto; lia.
+Qed.
+Lemma goto_res_m s r rest a : rm s ROOT = false -> nxm s (goto_res r rest a) (1 + length rest + ares_cost a).
+Proof.
+  intros H0. destruct rest as [|x rest]; simpl.
+  - pose proof (after_res_m s r a H0) as H. destruct (after_res r a); simpl in *; auto.
+    destruct H; split; auto; try lia.
+  - split; [discriminate|lia].
+Qed.
+
+Lemma copy_ref_rm n s r s' r' : copy_ref n s r = Some (s', r') -> forall x, rm s' x = rm s x.
+Proof.
+  intros H x. apply copy_ref_post in H as (nd & nf & Ed & _ & _ & Hcp & _).
+  apply CP_locks in Hcp as [_ Hr]. unfold rm. rewrite Ed. apply view_app. exact Hr.
+Qed.
+
+Lemma child_not_removed s rk pv d o n c :
+  forest s rk pv -> nth_error (dirs s) d = Some o -> lookup_ch (d_ch o) n = Some (RDir c) -> rm s c = false.
+Proof.
+  intros F Eo El. apply lookup_ch_In in El. rewrite <- (dch_get _ _ _ Eo) in El. eapply f_rm; eauto.
+Qed.
+
+Lemma step_pc_measure t s p s' n rk pv :
+  SP3 s -> pc_refs s p -> forest s rk pv -> step_pc cur t s p = Some (s', n) ->
+  exists b, b < pcm s p /\ nxm s' n b.
+Proof.
+  intros HS Hp F H. pose proof HS as [H0 _]. pose proof (f_rmroot _ _ _ F) as Hroot.
+  destruct p; simpl in H; try discriminate; simpl in Hp; unfold dok, fok in *.
+  all: brk H; injection H as <- <-.
+  all: try (exfalso; repeat match goal with H : nth_error _ _ = None |- _ => apply nth_None_ge in H end;
+            simpl in *; intuition lia).
+  all: try solve [exists 0; split; [simpl; unfold Rs; lia | exact I]].
+  all: try solve [eexists; split; [|split; [discriminate|apply le_n]]; simpl; unfold Rs; shp; simpl; lia].
+  - exists (ares_cost a). split; [simpl; lia|apply after_res_m; auto].
+  - exists (1 + length p + ares_cost a). split; [simpl; lia|apply goto_res_m; auto].
+  - exists (aft a + Rs s cur full a). split; [simpl; destruct second; lia|apply after_mk_m].
+  - match goal with Eo : nth_error (dirs s) cur = Some _, El : lookup_ch _ _ = Some (RDir ?c) |- _ =>
+      pose proof (child_not_removed _ _ _ _ _ _ _ F Eo El) as Hc end.
+    exists (2 + 2 * length p + aft a + Rs s d0 full a). split; [|apply goto_mk_m].
+    unfold Rs at 1. rewrite Hc. simpl. destruct second; lia.
+  - destruct second; try discriminate.
+    eexists; split; [|split; [discriminate|apply le_n]]. simpl. lia.
+  - match goal with Eo : nth_error (dirs s) cur = Some ?o, Er : d_removed ?o = true |- _ =>
+      assert (Hc : rm s cur = true) by (rewrite (rm_get _ _ _ Eo); exact Er) end.
+    exists (2 + 2 * length full + aft a + Rs s ROOT full a). split; [|apply goto_mk_m].
+    simpl. unfold Rs. rewrite Hroot, Hc. unfold Wk. simpl. destruct second; lia.
+  - match goal with |- exists b, _ /\ nxm ?s' _ _ =>
+      assert (Hc : rm s' (length (dirs s)) = false) end.
+    { shp. unfold view. rewrite (proj2 (nth_error_None _ _)); [reflexivity|lia]. }
+    exists (2 + 2 * length p + aft a + 0). split; [simpl; destruct second; lia|].
+    match goal with |- nxm ?s' _ _ => pose proof (goto_mk_m s' full (length (dirs s)) p a) as G end.
+    unfold Rs in G at 1. rewrite Hc in G. exact G.
+  - match goal with Eo : nth_error (dirs s) d = Some ?o, Er : d_removed ?o = true |- _ =>
+      assert (Hc : rm s d = true) by (rewrite (rm_get _ _ _ Eo); exact Er) end.
+    assert (Hr : rm (release_L s d) ROOT = false) by (shp; exact Hroot).
+    exists (2 + 2 * length full + aft (MWrite nm data) + 0). split.
+    + simpl. unfold Rs. rewrite Hc. unfold Wk. simpl. lia.
+    + pose proof (goto_mk_m (release_L s d) full ROOT full (MWrite nm data)) as G.
+      unfold Rs in G at 1. rewrite Hr in G. exact G.
+  - match goal with Eo : nth_error (dirs s) d = Some ?o, Er : d_removed ?o = true |- _ =>
+      assert (Hc : rm s d = true) by (rewrite (rm_get _ _ _ Eo); exact Er) end.
+    assert (Hr : rm (release_L s d) ROOT = false) by (shp; exact Hroot).
+    exists (2 + 2 * length full + aft (MWriter nm chunks) + 0). split.
+    + simpl. unfold Rs. rewrite Hc. unfold Wk. simpl. lia.
+    + pose proof (goto_mk_m (release_L s d) full ROOT full (MWriter nm chunks)) as G.
+      unfold Rs in G at 1. rewrite Hr in G. exact G.
+  - match goal with Ec : copy_ref _ _ _ = Some _ |- _ => pose proof (copy_ref_rm _ _ _ _ _ Ec) as Hrm end.
+    eexists; split; [|split; [discriminate|apply le_n]]. simpl. unfold Rs, Wk. rewrite Hrm. simpl. destruct (rm s d); lia.
+  - match goal with Eo : nth_error (dirs s) d = Some ?o, Er : d_removed ?o = true |- _ =>
+      assert (Hc : rm s d = true) by (rewrite (rm_get _ _ _ Eo); exact Er) end.
+    exists (2 + 2 * length full + aft (MAdd snap nm) + Rs s ROOT full (MAdd snap nm)). split; [|apply goto_mk_m].
+    simpl. unfold Rs. rewrite Hroot, Hc. unfold Wk. simpl. lia.
+Qed.
+
+Definition opcost (o : cop) : nat :=
+  match o with
+  | CWrite p _ => 4 + 2 * length p
+  | CWriter p c => 5 + 2 * length p + length c
+  | CMkdir p => 2 + 2 * length p
+  | CRead p | CReader p | CList p | CExist p | CRemove p _ => 3 + length p
+  | CCopy _ src dst => 5 + length src + 2 * length dst
+  end.
+
+Lemma split_last_length p dp nm : split_last p = Some (dp, nm) -> length p = S (length dp).
+Proof.
+  revert dp nm. induction p as [|n p IH]; intros dp nm; simpl; [discriminate|].
+  destruct p as [|n' p'].
+  - intros H; inv H. reflexivity.
+  - destruct (split_last (n' :: p')) as [[dp' l]|] eqn:E; [|discriminate].
+    intros H; inv H. simpl. f_equal. eapply IH. reflexivity.
+Qed.
+
+Lemma nxm_le s n b b' : b <= b' -> nxm s n b -> nxm s n b'.
+Proof. intros Hb. destruct n; simpl; auto. intros [H1 H2]. split; auto. lia. Qed.
+
+Lemma start_m s o : rm s ROOT = false -> nxm s (start o) (opcost o).
+Proof.
+  intros H0.
+  assert (Hmk : forall dp a b, 2 + 2 * length dp + aft a <= b -> nxm s (goto_mk dp ROOT dp a) b).
+  { intros dp a b Hb. eapply nxm_le; [|apply goto_mk_m]. unfold Rs. rewrite H0. lia. }
+  assert (Hres : forall p a b, 1 + length p + ares_cost a <= b -> nxm s (goto_res (RDir ROOT) p a) b).
+  { intros p a b Hb. eapply nxm_le; [|apply goto_res_m; auto]. lia. }
+  destruct o; simpl.
+  - destruct (split_last p) as [[dp nm]|] eqn:E; simpl; auto. apply split_last_length in E.
+    apply Hmk. simpl. lia.
+  - destruct (split_last p) as [[dp nm]|] eqn:E; simpl; auto. apply split_last_length in E.
+    apply Hmk. simpl. lia.
+  - apply Hmk. simpl. lia.
+  - destruct p as [|x p]; simpl; auto. apply (Hres (x :: p)). simpl. lia.
+  - destruct p as [|x p]; simpl; auto. apply (Hres (x :: p)). simpl. lia.
+  - apply Hres. simpl. lia.
+  - apply Hres. simpl. lia.
+  - destruct (split_last p) as [[dp nm]|] eqn:E; simpl; auto. apply split_last_length in E.
+    apply Hres. simpl. lia.
+  - destruct (split_last dst) as [[dp nm]|] eqn:E; simpl; auto. apply split_last_length in E.
+    destruct k, src; simpl; auto; try (split; [discriminate|lia]).
+    all: apply Hmk; simpl; lia.
+Qed.
+
+Definition osum (l : list cop) : nat := fold_right (fun o acc => S (opcost o) + acc) 0 l.
+Definition mu (s : shared) (l : local) : nat :=
+  pcm s (pc l) + match pc l with PIdle => osum (prog l) | _ => osum (tl (prog l)) end.
+
+Lemma mu_next s l p : p <> PIdle -> mu s (mkLocal (prog l) p (log l)) = pcm s p + osum (tl (prog l)).
+Proof. intros Hp. unfold mu. simpl. destruct p; congruence. Qed.
+Lemma mu_finish s l r : mu s (finish l r) = osum (tl (prog l)).
+Proof. unfold mu, finish. destruct (prog l); reflexivity. Qed.
+
+Lemma step_local_measure t s l s' l' rk pv :
+  SP3 s -> pc_refs s (pc l) -> forest s rk pv ->
+  step_local cur t s l = Some (s', l') -> mu s' l' < mu s l.
+Proof.
+  intros HS Hp F H.
+  apply step_local_inv in H as [(Ep & o & rest & Eo & -> & ->)|(Ep & n & Esp & ->)].
+  - pose proof (start_m s o (f_rmroot _ _ _ F)) as Hs. unfold mu at 2. rewrite Ep, Eo. simpl.
+    destruct (start o) as [p|r]; simpl in *.
+    + destruct Hs as [Hn Hb]. rewrite mu_next by auto. rewrite Eo. simpl. lia.
+    + rewrite mu_finish, Eo. simpl. lia.
+  - destruct (step_pc_measure _ _ _ _ _ _ _ HS Hp F Esp) as (b & Hb & Hn).
+    assert (Hmu : mu s l = pcm s (pc l) + osum (tl (prog l))).
+    { unfold mu. destruct (pc l); congruence. }
+    rewrite Hmu. destruct n as [p|r]; simpl in *.
+    + destruct Hn as [Hn Hle]. rewrite mu_next by auto. lia.
+    + rewrite mu_finish. lia.
+Qed.
+
+(** region steps of other threads do not change what [mu] looks at *)
+Lemma pcm_ext s s' p : (forall x, rm s' x = rm s x) -> pcm s' p = pcm s p.
+Proof. intros H. destruct p; simpl; unfold Rs; rewrite ?H; reflexivity. Qed.
+
+Lemma region_step_rm t s p s' n :
+  SP3 s -> pc_refs s p -> in_region p -> step_pc cur t s p = Some (s', n) -> forall x, rm s' x = rm s x.
+Proof.
+  intros HS Hp Hr H x. destruct p; simpl in H; try discriminate; simpl in Hp; unfold dok, fok in *;
+    try (destruct Hr as [Hr|Hr]; simpl in Hr; congruence).
+  all: brk H; injection H as <- <-; try reflexivity.
+  all: try (exfalso; repeat match goal with H : nth_error _ _ = None |- _ => apply nth_None_ge in H end;
+            simpl in *; intuition lia).
+  all: shp; reflexivity.
+Qed.
+
+Definition bw (p : pcs) : nat :=
+  match p with
+  | PReaderClose _ => 1
+  | PWriting _ c => 1 + length c
+  | PInL _ _ _ _ w => 2 + wkw w
+  | PWriterAcq _ _ c => 3 + length c
+  | _ => 0
+  end.
+Definition nbw (n : next) : nat := match n with NPc p => bw p | NRet _ => 0 end.
+Lemma bw_goto_mk full c rest a : nbw (goto_mk full c rest a) = 0.
+Proof. destruct rest; simpl; auto. destruct a; reflexivity. Qed.
+
+Lemma region_step_bw t s p s' n :
+  in_region p -> step_pc cur t s p = Some (s', n) -> nbw n < bw p.
+Proof.
+  intros Hr H. destruct p; simpl in H; try discriminate;
+    try (destruct Hr as [Hr|Hr]; simpl in Hr; congruence).
+  all: brk H; injection H as <- <-; rewrite ?bw_goto_mk; simpl; lia.
+Qed.
+
+Definition Bsum (ths : list local) : nat := fold_right (fun l acc => bw (pc l) + acc) 0 ths.
+Lemma Bsum_upd ths t l l' : nth_error ths t = Some l ->
+  Bsum (list_upd ths t (fun _ => l')) + bw (pc l) = Bsum ths + bw (pc l').
+Proof.
+  revert t. induction ths as [|x ths IH]; intros [|t]; simpl; try discriminate.
+  - intros H; inv H. lia.
+  - intros H. apply IH in H. lia.
+Qed.
+
+Lemma run_cons ar t sched st st' : step ar t st = Some st' -> run ar (t :: sched) st = run ar sched st'.
+Proof. intros H. unfold run. simpl. unfold step_or_stay. rewrite H. reflexivity. Qed.
+
+Lemma step_other ar t st st' t' : step ar t st = Some st' -> t' <> t ->
+  nth_error (ths st') t' = nth_error (ths st) t'.
+Proof.
+  intros H Hn. apply step_inv in H as (l & s' & l' & _ & _ & ->). simpl.
+  apply nth_list_upd_neq. auto.
+Qed.
+
+Lemma step_length ar t st st' : step ar t st = Some st' -> length (ths st') = length (ths st).
+Proof. intros H. apply step_inv in H as (l & s' & l' & _ & _ & ->). simpl. apply list_upd_length. Qed.
+Lemma run_length ar sched st : length (ths (run ar sched st)) = length (ths st).
+Proof.
+  revert st. induction sched as [|t sched IH]; intros st; [reflexivity|].
+  change (run ar (t :: sched) st) with (run ar sched (step_or_stay ar st t)). rewrite IH.
+  unfold step_or_stay. destruct (step ar t st) eqn:E; auto. eapply step_length; eauto.
+Qed.
+
+Lemma done_no_step ar t st l : nth_error (ths st) t = Some l -> done l = true -> step ar t st = None.
+Proof.
+  intros El Hd. unfold step. rewrite El. unfold step_local, done in *.
+  destruct (prog l); [|discriminate]. destruct (pc l); try discriminate. reflexivity.
+Qed.
+
+Lemma done_stable ar sched st t l : nth_error (ths st) t = Some l -> done l = true ->
+  nth_error (ths (run ar sched st)) t = Some l.
+Proof.
+  revert st. induction sched as [|t' sched IH]; intros st El Hd; [exact El|].
+  change (run ar (t' :: sched) st) with (run ar sched (step_or_stay ar st t')).
+  apply IH; auto. unfold step_or_stay. destruct (step ar t' st) as [st'|] eqn:E; auto.
+  destruct (Nat.eq_dec t t') as [->|Hn].
+  - rewrite (done_no_step _ _ _ _ El Hd) in E. discriminate.
+  - rewrite (step_other _ _ _ _ _ E Hn). exact El.
+Qed.
+
+Lemma Inv_run_from sched st : Inv st -> Inv (run cur sched st).
+Proof. apply run_inv. intros; eapply Inv_step; eauto. Qed.
+
+(** one thread can always be driven to the end of its program: when it is blocked we step a
+    thread that is inside a critical region or a stream session (that decreases [Bsum] and leaves
+    [mu] of our thread alone), otherwise we step the thread itself (that decreases its [mu]) *)
+Lemma finish_one t : forall m b st l,
+  Inv st -> nth_error (ths st) t = Some l -> mu (sh st) l = m -> Bsum (ths st) = b ->
+  exists sched l', nth_error (ths (run cur sched st)) t = Some l' /\ done l' = true.
+Proof.
+  induction m as [m IHm] using lt_wf_ind. induction b as [b IHb] using lt_wf_ind.
+  intros st l HI El Hm Hb.
+  destruct (done l) eqn:Hd; [exists [], l; auto|].
+  destruct (step cur t st) as [st'|] eqn:Es.
+  - pose proof (Inv_step _ _ _ HI Es) as HI'.
+    destruct HI as ([HS HLoc] & _ & (rk & pv & F & _)).
+    apply step_inv in Es as Hs. destruct Hs as (l0 & s' & l' & El0 & Esl & ->). rewrite El in El0. inv El0.
+    pose proof (step_local_measure _ _ _ _ _ _ _ HS (HLoc _ _ El) F Esl) as Hlt.
+    destruct (IHm (mu s' l') Hlt (Bsum (list_upd (ths st) t (fun _ => l'))) _ l' HI') as (sched & l1 & E1 & D1); auto.
+    { simpl. apply nth_list_upd_eq with (f := fun _ => l') in El. exact El. }
+    exists (t :: sched), l1. rewrite (run_cons _ _ _ _ _ Es). auto.
+  - destruct (blocked_has_enabled st t l HI El Hd Es) as (t' & l' & s' & n & El' & Hr & Hs).
+    assert (Hni : pc l' <> PIdle) by (intros E; rewrite E in Hr; destruct Hr as [Hr|Hr]; apply Hr; reflexivity).
+    destruct (step_Some_intro _ _ _ _ _ _ El' Hni Hs) as [st' Hst].
+    assert (Hne : t <> t') by (intros ->; congruence).
+    pose proof (Inv_step _ _ _ HI Hst) as HI'.
+    destruct HI as ([HS HLoc] & _ & _).
+    apply step_inv in Hst as Hs'. destruct Hs' as (l0 & s1 & l1 & El0 & Esl & Est). rewrite El' in El0. inv El0.
+    apply step_local_inv in Esl as [(Ep & _)|(_ & n1 & Esp & ->)]; [congruence|].
+    rewrite Hs in Esp. inv Esp.
+    pose proof (region_step_rm _ _ _ _ _ HS (HLoc _ _ El') Hr Hs) as Hrm.
+    pose proof (region_step_bw _ _ _ _ _ Hr Hs) as Hbw.
+    assert (Elt : nth_error (ths (mkSt s1 (list_upd (ths st) t' (fun _ => apply_next l0 n1)))) t = Some l).
+    { simpl. rewrite nth_list_upd_neq; auto. }
+    assert (Hmu : mu s1 l = mu (sh st) l).
+    { unfold mu. rewrite (pcm_ext _ _ _ Hrm). reflexivity. }
+    assert (HB : Bsum (list_upd (ths st) t' (fun _ => apply_next l0 n1)) < Bsum (ths st)).
+    { pose proof (Bsum_upd _ _ _ (apply_next l0 n1) El') as E. rewrite pc_apply_next in E.
+      destruct n1; unfold nbw in Hbw; [|change (bw PIdle) with 0 in E]; lia. }
+    destruct (IHb _ HB _ l HI' Elt Hmu eq_refl) as (sched & l2 & E2 & D2).
+    exists (t' :: sched), l2. rewrite (run_cons _ _ _ _ _ Hst). auto.
+Qed.
+
+Lemma finish_upto : forall k st, Inv st -> k <= length (ths st) ->
+  exists sched, forall t l, t < k -> nth_error (ths (run cur sched st)) t = Some l -> done l = true.
+Proof.
+  induction k as [|k IH]; intros st HI Hk.
+  - exists []. intros t l Ht. lia.
+  - destruct (IH st HI) as (sched1 & H1); [lia|].
+    set (st1 := run cur sched1 st) in *.
+    assert (HI1 : Inv st1) by (apply Inv_run_from; auto).
+    destruct (nth_error (ths st1) k) as [lk|] eqn:Ek.
+    2: { apply nth_error_None in Ek. unfold st1 in Ek. rewrite run_length in Ek. lia. }
+    destruct (finish_one k _ _ st1 lk HI1 Ek eq_refl eq_refl) as (sched2 & lk' & E2 & D2).
+    exists (sched1 ++ sched2). rewrite run_app. fold st1. intros t l Ht El.
+    destruct (Nat.eq_dec t k) as [->|Hn]; [congruence|].
+    destruct (nth_error (ths st1) t) as [lt0|] eqn:Et.
+    + assert (Htk : t < k) by lia. pose proof (H1 t lt0 Htk Et) as Hd.
+      rewrite (done_stable cur sched2 st1 t lt0 Et Hd) in El. inv El. exact Hd.
+    + apply nth_error_None in Et. assert (nth_error (ths (run cur sched2 st1)) t <> None) by congruence.
+      apply nth_error_Some in H. rewrite run_length in H. lia.
+Qed.
+
+Theorem can_finish s0 progs sched :
+  good_shared s0 = true -> heap_forest s0 ->
+  exists sched', final (run cur (sched ++ sched') (boot s0 progs)) = true.
+Proof.
+  intros Hg Hf. pose proof (Inv_run s0 progs sched Hg Hf) as HI.
+  destruct (finish_upto (length (ths (run cur sched (boot s0 progs)))) _ HI (le_n _)) as (sched' & H).
+  exists sched'. rewrite run_app. unfold final. apply forallb_forall. intros l Hin.
+  apply In_nth_error in Hin as [t El]. apply (H t l); auto.
+  rewrite <- (run_length cur sched' (run cur sched (boot s0 progs))). apply nth_lt in El. exact El.
+Qed.
+
+(** * The executable check [tree_shared] implies [heap_forest] *)
+Lemma nat_in_spec x l : nat_in x l = true <-> In x l.
+Proof.
+  unfold nat_in. rewrite existsb_exists. split.
+  - intros (y & Hy & E). apply Nat.eqb_eq in E. subst. exact Hy.
+  - intros H. exists x. split; auto. apply Nat.eqb_refl.
+Qed.
+Lemma nodupb_spec l : nodupb l = true -> NoDup l.
+Proof.
+  induction l as [|x l IH]; simpl; [constructor|]. intros H. apply andb_true_iff in H as [H1 H2].
+  constructor; auto. intros Hin. apply nat_in_spec in Hin. rewrite Hin in H1. discriminate.
+Qed.
+Lemma kids_dch s d : kids s d = drefs (dch s d).
+Proof. unfold kids, dch, view. destruct (nth_error (dirs s) d); reflexivity. Qed.
+Lemma is_removed_rm s d : is_removed s d = rm s d.
+Proof. reflexivity. Qed.
+
+Lemma tree_shared_forest s : tree_shared s = true -> heap_forest s.
+Proof.
+  unfold tree_shared. intros H. apply andb_true_iff in H as [Hall Hroot].
+  set (rk := fun x => nth x (heights s) 0). fold rk in Hall.
+  rewrite forallb_forall in Hall.
+  assert (Hedge : forall d nm c, In (nm, RDir c) (dch s d) ->
+            d < length (dirs s) /\ In c (kids s d) /\ NoDup (kids s d) /\
+            c <> ROOT /\ rm s c = false /\ rk c < rk d /\
+            forall d2, d2 < length (dirs s) -> In c (kids s d2) -> d = d2).
+  { intros d nm c Hin.
+    assert (Hd : d < length (dirs s)).
+    { unfold dch, view in Hin. destruct (nth_error (dirs s) d) eqn:E; [eapply nth_lt; eauto|destruct Hin]. }
+    assert (Hc : In c (kids s d)) by (rewrite kids_dch; apply drefs_In; eauto).
+    specialize (Hall d). rewrite in_seq in Hall. specialize (Hall ltac:(lia)).
+    apply andb_true_iff in Hall as [Hnd Hk]. rewrite forallb_forall in Hk. specialize (Hk c Hc).
+    repeat (apply andb_true_iff in Hk as [Hk ?]).
+    split; auto. split; auto. split; [apply nodupb_spec; auto|].
+    split; [intros ->; rewrite Nat.eqb_refl in Hk; discriminate|].
+    split; [rewrite <- is_removed_rm; destruct (is_removed s c); auto; discriminate|].
+    split; [apply Nat.ltb_lt; auto|].
+    intros d2 Hd2 Hin2. rewrite forallb_forall in H. specialize (H d2). rewrite in_seq in H.
+    specialize (H ltac:(lia)). apply orb_true_iff in H as [H|H]; [apply Nat.eqb_eq; auto|].
+    apply nat_in_spec in Hin2. rewrite Hin2 in H. discriminate. }
+  exists rk. constructor.
+  - intros d nm c Hin. apply Hedge in Hin. tauto.
+  - reflexivity.
+  - intros d. destruct (dch s d) as [|[nm r] ch] eqn:E; [constructor|].
+    destruct (Nat.lt_ge_cases d (length (dirs s))) as [Hd|Hd].
+    + specialize (Hall d). rewrite in_seq in Hall. specialize (Hall ltac:(lia)).
+      apply andb_true_iff in Hall as [Hnd _]. rewrite kids_dch, E in Hnd. apply nodupb_spec. exact Hnd.
+    + unfold dch, view in E. rewrite (proj2 (nth_error_None _ _) Hd) in E. discriminate.
+  - intros d1 n1 d2 n2 c H1 H2. apply Hedge in H1 as (_ & _ & _ & _ & _ & _ & Hu).
+    apply Hedge in H2 as (Hd2 & Hc2 & _). apply Hu; auto.
+  - intros d nm Hin. apply Hedge in Hin as (_ & _ & _ & Hc & _). congruence.
+  - intros d nm c Hin. apply Hedge in Hin. tauto.
+  - rewrite <- is_removed_rm. destruct (is_removed s ROOT); auto; discriminate.
+Qed.
+
+Lemma empty_forest : heap_forest empty_shared.
+Proof. apply tree_shared_forest. reflexivity. Qed.
+
+(** every state reachable from a tree-shaped heap is again good for the theorems *)
+Theorem no_deadlock_tree s0 progs sched :
+  good_shared s0 = true -> tree_shared s0 = true ->
+  let st := run cur sched (boot s0 progs) in
+  (forall t, step cur t st = None) -> final st = true.
+Proof. intros Hg Ht. apply no_deadlock; auto using tree_shared_forest. Qed.
+
+Theorem can_finish_tree s0 progs sched :
+  good_shared s0 = true -> tree_shared s0 = true ->
+  exists sched', final (run cur (sched ++ sched') (boot s0 progs)) = true.
+Proof. intros Hg Ht. apply can_finish; auto using tree_shared_forest. Qed.
+
+(** * Why [good_shared] alone is not enough (artefacts of initial heaps that the memfs API cannot
+    build; the theorems above therefore ask for a tree-shaped initial heap) *)
+(** a cyclic heap (the root links to itself): the deep copy of Copy "/" -> "/x" runs out of fuel
+    in the model (in Go: unbounded recursion), the only thread is stuck for ever *)
+Definition s_cyclic : shared := mkSh [mkDir [(nA, RDir 0)] false None] [].
+Definition st_cyclic : state := run cur [0; 0] (boot s_cyclic [[CCopy CAny [] [nX]]]).
+Lemma one_thread_others ar st t : length (ths st) = 1 -> step ar (S t) st = None.
+Proof.
+  intros H. unfold step. destruct (nth_error (ths st) (S t)) eqn:E; auto. apply nth_lt in E. lia.
+Qed.
+Theorem cyclic_heap_deadlock :
+  good_shared s_cyclic = true /\ tree_shared s_cyclic = false /\
+  (forall t, step cur t st_cyclic = None) /\ final st_cyclic = false.
+Proof.
+  split; [reflexivity|]. split; [reflexivity|]. split; [|vm_compute; reflexivity].
+  intros [|t]; [vm_compute; reflexivity|]. apply one_thread_others. vm_compute. reflexivity.
+Qed.
+
+(** a directory object linked under two names: after Remove "a" the object carries the removed
+    mark but is still reachable as "d"; MkdirAll "d/x" then restarts from the root for ever *)
+Definition s_shared_dir : shared :=
+  mkSh [mkDir [(nA, RDir 1); (nD, RDir 1)] false None; mkDir [] false None] [].
+Definition st_loop0 : state := run cur (repeat 0 6) (boot s_shared_dir [[CRemove [nA] false; CMkdir [nD; nX]]]).
+Definition st_loop1 : state := run cur [0] st_loop0.
+Definition st_loop2 : state := run cur [0; 0] st_loop0.
+Theorem shared_dir_livelock :
+  good_shared s_shared_dir = true /\ tree_shared s_shared_dir = false /\
+  forall sched, final (run cur sched st_loop0) = false.
+Proof.
+  split; [reflexivity|]. split; [reflexivity|].
+  assert (J : forall sched st, st = st_loop0 \/ st = st_loop1 \/ st = st_loop2 -> final (run cur sched st) = false).
+  { induction sched as [|t sched IH]; intros st Hst.
+    - destruct Hst as [->|[->| ->]]; vm_compute; reflexivity.
+    - change (run cur (t :: sched) st) with (run cur sched (step_or_stay cur st t)). apply IH.
+      unfold step_or_stay. destruct t as [|t].
+      + destruct Hst as [->|[->| ->]].
+        * right; left. vm_compute. reflexivity.
+        * right; right. vm_compute. reflexivity.
+        * left. vm_compute. reflexivity.
+      + rewrite one_thread_others; auto. destruct Hst as [->|[->| ->]]; vm_compute; reflexivity. }
+  intros sched. apply J. auto.
+Qed.
+
+(** * Nested sessions (outside the program space of the theorems): a goroutine that holds a
+    Writer session on x and calls ReadFile x waits for itself; two goroutines that each hold a
+    session and read the other's file wait for each other.  The real memfs does the same
+    (sync.RWMutex is not reentrant); this is by design, see DESIGN.md. *)
+Lemma step_nested_plain ar t st : step_nested (fun _ => None) ar t st = step ar t st.
+Proof. unfold step_nested. destruct (nth_error (ths st) t); reflexivity. Qed.
+
+Definition dep_self (t : nat) : option nat := match t with 0 => Some 1 | _ => None end.
+Definition st_nested_self : state :=
+  run_nested dep_self cur [0; 0; 0; 1; 1]
+    (boot (setup [CWrite [nX] [9%N]]) [[CWriter [nX] []]; [CRead [nX]]]).
+Definition dep_cross (t : nat) : option nat := match t with 0 => Some 2 | 1 => Some 3 | _ => None end.
+Definition st_nested_cross : state :=
+  run_nested dep_cross cur [0; 0; 0; 1; 1; 1; 2; 2; 3; 3]
+    (boot (setup [CWrite [nX] [9%N]; CWrite [nY] [8%N]])
+          [[CWriter [nX] []]; [CWriter [nY] []]; [CRead [nY]]; [CRead [nX]]]).
+
+Lemma few_threads_others ar dep st n t : length (ths st) = n -> n <= t -> step_nested dep ar t st = None.
+Proof.
+  intros H Hle. unfold step_nested, step.
+  destruct (nth_error (ths st) t) eqn:E; auto. apply nth_lt in E. lia.
+Qed.
+
+Theorem nested_session_deadlock :
+  ((forall t, step_nested dep_self cur t st_nested_self = None) /\ final st_nested_self = false /\
+   map pc (ths st_nested_self) = [PWriting 0 []; PReadData 0]) /\
+  ((forall t, step_nested dep_cross cur t st_nested_cross = None) /\ final st_nested_cross = false /\
+   map pc (ths st_nested_cross) = [PWriting 0 []; PWriting 1 []; PReadData 1; PReadData 0]).
+Proof.
+  split; (split; [|split; vm_compute; reflexivity]).
+  - intros [|[|t]]; try (vm_compute; reflexivity).
+    apply (few_threads_others _ _ _ 2); [vm_compute; reflexivity|lia].
+  - intros [|[|[|[|t]]]]; try (vm_compute; reflexivity).
+    apply (few_threads_others _ _ _ 4); [vm_compute; reflexivity|lia].
+Qed.
+
+(** the lock-holder progress invariant, stated over reachable states *)
+Definition holds_lock (p : pcs) : bool :=
+  match p with PInL _ _ _ _ _ | PWriterAcq _ _ _ | PWriting _ _ | PReaderClose _ => true | _ => false end.
+Lemma in_region_holds p : in_region p -> holds_lock p = true.
+Proof. destruct p; simpl; auto; intros [H|H]; exfalso; apply H; reflexivity. Qed.
+
+Theorem lock_holder_progress s0 progs sched t l :
+  good_shared s0 = true -> tree_shared s0 = true ->
+  let st := run cur sched (boot s0 progs) in
+  nth_error (ths st) t = Some l -> done l = false -> step cur t st = None ->
+  exists t' l' st', nth_error (ths st) t' = Some l' /\ holds_lock (pc l') = true /\
+                    step cur t' st = Some st'.
+Proof.
+  intros Hg Ht st El Hd Hn.
+  pose proof (Inv_run s0 progs sched Hg (tree_shared_forest _ Ht)) as HI. fold st in HI.
+  destruct (blocked_has_enabled st t l HI El Hd Hn) as (t' & l' & s' & n & El' & Hr & Hs).
+  assert (Hni : pc l' <> PIdle) by (intros E; rewrite E in Hr; destruct Hr as [Hr|Hr]; apply Hr; reflexivity).
+  destruct (step_Some_intro _ _ _ _ _ _ El' Hni Hs) as [st' Hst].
+  exists t', l', st'. auto using in_region_holds.
 Qed.
